@@ -97,7 +97,7 @@ class FpcProgram:
     uses_fixed: bool = False
 
     def sizes(self):
-        return [t[1] for _, t in self.params if isinstance(t, tuple)]
+        return [t[1] if t[0] == 'L' else [t[1], t[2]] for _, t in self.params if isinstance(t, tuple)]
 
 
 class _Fn:
@@ -141,8 +141,8 @@ class FpcGen:
 
     # -- expressions -------------------------------------------------------------------------------------
     def vars_of(self, fn, ty):
-        if ty == 'L':
-            return sorted(n for n, t in fn.env.items() if isinstance(t, tuple))
+        if ty in ('L', 'M'):
+            return sorted(n for n, t in fn.env.items() if isinstance(t, tuple) and t[0] == ty)
         return sorted(n for n, t in fn.env.items() if t == ty)
 
     def const(self, fn):
@@ -173,6 +173,9 @@ class FpcGen:
         ls = self.vars_of(fn, 'L') if self.p.lists else []
         if ls:
             opts += [(6, 'index'), (4, 'sum'), (2, 'len'), (3, 'lminmax')]
+        ms = self.vars_of(fn, 'M') if self.p.lists else []
+        if ms:
+            opts += [(9, 'mindex'), (3, 'msum')]
         if self.vars_of(fn, 'T'):
             opts.append((5, 'fst'))
         if self.helpers and not real:
@@ -209,6 +212,19 @@ class FpcGen:
         if k == 'index':
             l = ch.choice(ls)
             return f'{l}[{ch.int(0, fn.env[l][1] - 1)}]'
+        if k == 'mindex':
+            # two-level indexing with different indices on a non-square list of lists
+            m = ch.choice(ms)
+            _, r, c = fn.env[m]
+            i, j = ch.int(0, r - 1), ch.int(0, c - 1)
+            if i == j:
+                j = (j + 1) % c
+            self.features.add('index-2-levels')
+            return f'{m}[{i}][{j}]'
+        if k == 'msum':
+            m = ch.choice(ms)
+            self.features.add('row-reduce')
+            return f'{ch.choice(["sum", "max", "min"])}({m}[{ch.int(0, fn.env[m][1] - 1)}])'
         if k == 'sum':
             self.features.add('sum')
             return f'sum({ch.choice(ls)})'
@@ -353,7 +369,7 @@ class FpcGen:
         d = p.expr_depth
         opts = [(26, 'assign'), (6, 'aug'), (4, 'assignB')]
         if p.lists:
-            opts += [(6, 'assignL')]
+            opts += [(6, 'assignL'), (3, 'assignM')]
             if p.indexed_assign and fn.local_lists:
                 opts += [(7, 'store')]
         if p.tuples:
@@ -388,6 +404,14 @@ class FpcGen:
             out.append(f'{ind}{v} = {e}')
             fn.env[v] = ('L', n)
             fn.local_lists.add(v)
+        elif k == 'assignM':
+            v = fn.fresh('m')
+            r = ch.int(2, 3)
+            c = ch.choice([x for x in (2, 3, 4) if x != r])
+            rows = ['[' + ', '.join(self.expr_R(fn, 1) for _ in range(c)) + ']' for _ in range(r)]
+            out.append(f'{ind}{v} = [{", ".join(rows)}]')
+            fn.env[v] = ('M', r, c)
+            self.features.add('nested-list-literal')
         elif k == 'store':
             l = ch.choice(sorted(fn.local_lists))
             out.append(f'{ind}{l}[{ch.int(0, fn.env[l][1] - 1)}] = {self.expr_R(fn, d - 1)}')
@@ -514,7 +538,13 @@ class FpcGen:
         nparams = ch.int(1, 3) if is_main else ch.int(1, 2)
         for i in range(nparams):
             pn = f'{"a" if is_main else "p"}{i}'
-            if is_main and p.lists and ch.bool(0.35):
+            if is_main and p.lists and ch.bool(0.15):
+                r = ch.int(2, 3)
+                c = ch.choice([x for x in (2, 3, 4) if x != r])
+                params.append((pn, ('M', r, c)))
+                fn.env[pn] = ('M', r, c)
+                self.features.add('nested-list-arg')
+            elif is_main and p.lists and ch.bool(0.35):
                 n = ch.int(1, 4)
                 params.append((pn, ('L', n)))
                 fn.env[pn] = ('L', n)
@@ -575,7 +605,7 @@ class FpcGen:
             self.features.add('returns-list')
 
         def ann(t):
-            return 'fp.Real' if t == 'R' else 'list[fp.Real]'
+            return 'fp.Real' if t == 'R' else ('list[fp.Real]' if t[0] == 'L' else 'list[list[fp.Real]]')
         sig = ', '.join(f'{n}: {ann(t)}' for n, t in params)
         deco = '@fp.fpy' if own_ctx is None else f'@fp.fpy(ctx={own_ctx})'
         self.lines += [deco, f'def {name}({sig}):'] + body + ['']
@@ -646,6 +676,16 @@ def gen_inputs(ch: Chooser, prog: FpcProgram):
     for n, t in prog.params:
         if t == 'R':
             args.append(ch.choice(pool))
-        else:
+        elif t[0] == 'L':
             args.append([ch.choice(pool) for _ in range(t[1])])
+        else:
+            # distinct entries: a transposed access reads a different value
+            cells = list(dict.fromkeys(x for x in pool if x == x))
+            picked = []
+            for _ in range(t[1] * t[2]):
+                x = ch.choice(cells) if len(cells) > 1 else pool[0]
+                if len(cells) > 1:
+                    cells.remove(x)
+                picked.append(x)
+            args.append([picked[i * t[2]:(i + 1) * t[2]] for i in range(t[1])])
     return args
